@@ -1,5 +1,7 @@
 import SqlModel.Bookkeeping
 import SqlProofs.IdentShape.Contexts
+import SqlProofs.IdentShape.Contexts2
+import SqlProofs.CteShape.Skeletons
 import SqlProofs.ClauseShape.Skeletons
 import SqlProofs.LeadingKeyword
 import SqlModel
@@ -215,6 +217,34 @@ def cmdClauseTexts : String :=
       | .identList => "identList" | .params => "params" | .cases => "cases" | .comparison => "comparison" | .typedLiteral => "typedLiteral"
     s!"{k}|{if sk.pinned then 1 else 0}|{hx sk.text}|{hx sk.target}|" ++ ";".intercalate (sk.items.map hx))
 
+/-- `ctecheck`: evaluate the C18 CTE table with the compiled model: `ok <passing> <total> <hex texts of failing skeletons …>`
+(for a pinned skeleton "passing" means: get_type() is decided NOT to be the demanded keyword) -/
+def cmdCteCheck : String :=
+  let sks := Sql.Acc.cteSkels
+  let bad := sks.filter (fun sk => !Sql.Acc.cteCheck sk)
+  s!"ok {sks.length - bad.length} {sks.length}" ++ String.join (bad.map fun sk => " " ++ ",".intercalate (sk.text.map hexOf))
+
+/-- `ctetexts`: `pinned|text|want` per skeleton (hex, comma-joined code points) -/
+def cmdCteTexts : String :=
+  "ok " ++ " ".intercalate (Sql.Acc.cteSkels.map fun sk =>
+    s!"{if sk.pinned then 1 else 0}|" ++ ",".intercalate (sk.text.map hexOf) ++ "|" ++ ",".intercalate (sk.want.map hexOf))
+
+/-- `skelcheck2` / `skeltexts2`: as `skelcheck` / `skeltexts`, for the second context list of the C12 table (`contexts2`, 7 x 30) -/
+def cmdSkelCheck2 : String :=
+  let sks := Sql.Acc.contexts2.flatMap Sql.Acc.skelsOf
+  let bad := sks.filter (fun sk => !Sql.Acc.skelCheck sk)
+  s!"ok {sks.length - bad.length} {sks.length}" ++ String.join (bad.map fun sk => " " ++ ",".intercalate (sk.text.map hexOf))
+
+def cmdSkelTexts2 : String :=
+  "ok " ++ " ".intercalate ((Sql.Acc.contexts2.flatMap Sql.Acc.skelsOf).map fun sk =>
+    ",".intercalate (sk.text.map hexOf) ++ "|" ++ (match sk.qual with | none => "-" | some q => ",".intercalate (q.map hexOf)) ++ "|" ++
+    ",".intercalate (sk.name.map hexOf) ++ "|" ++ (match sk.alias with | none => "-" | some a => ",".intercalate (a.map hexOf)))
+
+/-- `lexbound`: coefficient and degree of the whole-lexer work bound of `lex_work_poly` for the current table, and the per-rule degrees -/
+def cmdLexBound : String :=
+  let b := Sql.lexPB defaultCfg.rules
+  s!"ok {b.c} {b.d} " ++ ",".intercalate (defaultCfg.rules.map fun r => toString (Sql.rulePB r).d)
+
 -- >>> bookkeeping (heap) command ---------------------------------------------------------------
 /-- `heap <leaf> … # <op> …`: leaf = comma-joined hex code points (`-` = empty); op = `self:Class:start:stop:includeEnd:extend`.
 Answers `ok <result> … | <object> …` with result = id of `grp` or the exception name, object = `id:parent:kids:Class:value`. -/
@@ -260,9 +290,14 @@ def handle (line : String) : String :=
   | "group" :: rest => cmdGroup rest
   | "heap" :: rest => cmdHeap rest
   | "skelcheck" :: _ => cmdSkelCheck
+  | "lexbound" :: _ => cmdLexBound
   | "skeltexts" :: _ => cmdSkelTexts
   | "clausecheck" :: _ => cmdClauseCheck
   | "clausetexts" :: _ => cmdClauseTexts
+  | "ctecheck" :: _ => cmdCteCheck
+  | "ctetexts" :: _ => cmdCteTexts
+  | "skelcheck2" :: _ => cmdSkelCheck2
+  | "skeltexts2" :: _ => cmdSkelTexts2
   | "leadhyp" :: rest => cmdLeadHyp (parseText rest)
   | "delimsafe" :: rest => cmdDelimSafe (parseText rest)
   | "skel" :: rest => cmdWsSkel rest
